@@ -898,43 +898,100 @@ def replay(ctx, doc):
 
 
 def selftest(ctx):
-    """corrupting one recorded field of an accepted observation makes the judge reject it"""
-    cases, _ = enumerate_forms(ctx)
-    pick = {"ntype": "int:zero:seven:fluent", "const": "big12_7:init", "timing": "end:neg2third:dcond", "interval": "TF:dur:rat",
-            "effect": "dec:num:cond:forall:inst", "plan": "tt:ad:third:third", "pgr": "SOLVED_SATISFICING:seq:one:many",
-            "vr": "VALID:one:one:none:FF"}
-    jobs = [{"kind": "g1", "case": c} for c in cases if pick.get(c["cat"]) == c["form"]]
-    recs = collect(ctx, [worker(j) for j in jobs], new_stats())
-    if len(recs) != len(pick) or judge(ctx, "clean", recs):
-        print("selftest: the clean observations are not accepted")
-        return 1
+    """(a) corrupting one recorded field of an accepted observation makes the judge reject it, clause by
+    clause; (b) re-ordering the collections a model holds without order is accepted (the bags of NormUPJ)"""
     import copy
 
-    def corrupt(r):
-        r = copy.deepcopy(r)
-        cat = r["meta"]["cat"]
-        if cat == "ntype":
-            r["b"]["fluents"][1]["type"]["hi"] = NONE
-        elif cat == "const":
-            r["b"]["init"][0]["v"]["n"][0] += 1
-        elif cat == "timing":
-            r["b"]["actions"][0]["conds"][0]["iv"]["lo"]["delay"]["n"] = 2
-        elif cat == "interval":
-            r["b"]["actions"][0]["dur"]["lopen"] = False
-        elif cat == "effect":
-            r["b"]["actions"][0]["effects"][0]["kind"] = "inc"
-        elif cat == "plan":
-            r["b"]["steps"][1]["d"] = upj.NV(Fraction(2, 3))
-        elif cat == "pgr":
-            r["b"]["logs"]["items"][1]["level"] = "ERROR"
-        elif cat == "vr":
-            r["b"]["status"] = "INVALID"
-        return r
-
-    bad = [corrupt(r) for r in recs] + [dict(copy.deepcopy(recs[0]), kb=recs[0]["kb"] + ["CONDITIONAL_EFFECTS"]), dict(copy.deepcopy(recs[0]), eq=False)]
-    fails = judge(ctx, "corrupted", bad)
-    ok = len(fails) == len(bad)
-    for r in bad:
-        print("selftest: %-8s corrupted -> %s" % (r["meta"]["cat"], sorted(fails.get(r["id"], []))))
+    cases, _ = enumerate_forms(ctx)
+    pick = {"ntype": "int:zero:seven:fluent", "const": "big12_7:init", "timing": "end:neg2third:dcond", "interval": "TF:dur:rat",
+            "effect": "dec:num:cond:forall:inst", "metric": "costs-all", "flags": "hundredth:TF", "plan": "tt:ad:third:third",
+            "pgr": "SOLVED_SATISFICING:seq:one:many", "vr": "VALID:one:one:none:FF", "cr": "grounder"}
+    jobs = [{"kind": "g1", "case": c} for c in cases if pick.get(c["cat"]) == c["form"]]
+    recs = collect(ctx, [worker(j) for j in jobs], new_stats())
+    # the grounder's result has log_messages None, read back as []: a listed finding, not part of this test
+    recs = [r for r in recs if r["mode"] == "proj"]
+    clean = judge(ctx, "clean", recs)
+    if len(recs) != len(pick) or any(c - {"absent-vs-empty-log_messages"} for c in clean.values()):
+        print("selftest: the clean observations are not accepted", clean)
+        return 1
+    by = {r["meta"]["cat"]: r for r in recs}
+    ex = upj.E("fluent", [upj.E("obj", name="o1")], name="b")
+    empty_htn = {"k": "htn", "tasks": [], "methods": [], "netvars": [], "netsubtasks": [], "netconstraints": []}
+    C = [  # (category, expected clause, corruption of the read-back projection)
+        ("ntype", "upj-fluents", lambda b: b["fluents"][1]["type"].__setitem__("hi", NONE)),
+        ("ntype", "upj-name", lambda b: b.__setitem__("name", "q")),
+        ("ntype", "upj-types", lambda b: b["types"].append({"name": "U", "parent": "T"})),
+        ("ntype", "upj-objects", lambda b: b["objects"].pop()),
+        ("ntype", "upj-goals", lambda b: b["goals"].append(ex)),
+        ("ntype", "upj-invariants", lambda b: b["invariants"].append(ex)),
+        ("ntype", "upj-traj", lambda b: b["traj"].append(upj.E("sometime", [ex]))),
+        ("ntype", "upj-nmetrics", lambda b: b.__setitem__("nmetrics", 1)),
+        ("ntype", "upj-htn", lambda b: b.__setitem__("htn", empty_htn)),
+        ("const", "upj-init", lambda b: b["init"][0]["v"]["n"].__setitem__(0, b["init"][0]["v"]["n"][0] + 1)),
+        ("timing", "upj-actions", lambda b: b["actions"][0]["conds"][0]["iv"]["lo"]["delay"].__setitem__("n", 2)),
+        ("interval", "upj-actions", lambda b: b["actions"][0]["dur"].__setitem__("lopen", False)),
+        ("effect", "upj-actions", lambda b: b["actions"][0]["effects"][0].__setitem__("kind", "inc")),
+        ("effect", "upj-actions", lambda b: b["actions"][0]["effects"].append(b["actions"][0]["effects"][0])),  # multiplicity
+        ("metric", "upj-metric", lambda b: b["metric"]["costs"].pop()),
+        ("flags", "upj-epsilon", lambda b: b.__setitem__("epsilon", upj.NV(1))),
+        ("flags", "upj-discrete", lambda b: b.__setitem__("discrete", False)),
+        ("flags", "upj-selfov", lambda b: b.__setitem__("selfov", True)),
+        ("plan", "plan-step-duration", lambda b: b["steps"][1].__setitem__("d", upj.NV(Fraction(2, 3)))),
+        ("plan", "plan-step-start", lambda b: b["steps"][0].__setitem__("t", upj.NV(0))),
+        ("plan", "plan-step-action", lambda b: b["steps"][0].__setitem__("a", "n")),
+        ("plan", "plan-step-arguments", lambda b: b["steps"][0].__setitem__("args", [upj.OV("o2")])),
+        ("plan", "plan-length", lambda b: b["steps"].pop()),
+        ("plan", "plan-kind", lambda b: b.__setitem__("kind", "seq")),
+        ("pgr", "res-log_messages", lambda b: b["logs"]["items"][1].__setitem__("level", "ERROR")),
+        ("pgr", "res-log_messages", lambda b: b["logs"]["items"].reverse()),
+        ("pgr", "res-engine", lambda b: b.__setitem__("engine", "other")),
+        ("pgr", "res-metrics", lambda b: b["metrics"]["items"][0].__setitem__(1, "0.6")),
+        ("pgr", "absent-vs-empty-metrics", None),
+        ("pgr", "plan-step-arguments", lambda b: b["plan"]["steps"][1].__setitem__("args", [upj.OV("o1")])),
+        ("vr", "res-status", lambda b: b.__setitem__("status", "INVALID")),
+        ("vr", "res-reason", lambda b: b.__setitem__("reason", "MUTEX_CONFLICT")),
+        ("cr", "res-map_back", lambda b: b["map"][0]["p"]["args"].__setitem__(0, upj.OV("o2"))),
+        ("cr", "res-problem", lambda b: b.__setitem__("problem", NONE)),
+        ("cr", "upj-actions", lambda b: b["problem"]["P"]["actions"].pop()),
+    ]
+    bad, expect = [], []
+    for cat, clause, f in C:
+        r = copy.deepcopy(by[cat])
+        if f is None:  # empty container on one side, absent on the other
+            r["a"]["metrics"], r["b"]["metrics"] = {"k": "some", "items": []}, NONE
+        else:
+            f(r["b"])
+        bad.append(r)
+        expect.append(clause)
+    for extra, clause in ((dict(kb=by["ntype"]["kb"] + ["CONDITIONAL_EFFECTS"]), "kind-gained-CONDITIONAL_EFFECTS"),
+                          (dict(kb=by["ntype"]["kb"][1:]), "kind-lost-" + by["ntype"]["kb"][0]), (dict(eq=False), "impl-eq"),
+                          (dict(r="raise"), "read-raises"), (dict(w="raise", must=True), "write-raises"),
+                          (dict(src="fresh", r="raise"), "env-mixup")):
+        bad.append(dict(copy.deepcopy(by["ntype"]), **extra))
+        expect.append(clause)
+    # (b) permutations that must be accepted
+    perm = []
+    for cat in ("ntype", "effect", "metric", "cr"):
+        r = copy.deepcopy(by[cat])
+        P = r["b"]["problem"]["P"] if cat == "cr" else r["b"]
+        for k in ("types", "objects", "fluents", "init", "actions", "goals", "timed_goals", "timed_effects"):
+            P[k].reverse()
+        for a in P["actions"]:
+            a["pre"].reverse(), a["effects"].reverse(), a["conds"].reverse()
+        P["metric"]["costs"].reverse()
+        if cat == "cr":
+            r["b"]["map"].reverse()
+        perm.append(r)
+    fails = judge(ctx, "corrupted", bad + perm)
+    ok = True
+    for r, clause in zip(bad, expect):
+        got = sorted(fails.get(r["id"], []))
+        good = clause in got
+        ok = ok and good
+        print("selftest: %-8s expect %-32s got %s%s" % (r["meta"]["cat"], clause, got, "" if good else "   <-- MISSED"))
+    for r in perm:
+        got = sorted(fails.get(r["id"], set()) - {"absent-vs-empty-log_messages"})
+        ok = ok and not got
+        print("selftest: %-8s re-ordered collections: %s" % (r["meta"]["cat"], "accepted" if not got else "REJECTED %s" % got))
     print("selftest:", "ok" if ok else "FAILED")
     return 0 if ok else 1
